@@ -406,7 +406,7 @@ def configs_for(prop, tier):
                  conc=["plain"], obs="getters", depth=3, walks=200000, walklen=30, tlc_timeout=1800, budget="12m"),
         ]
     if prop == "C19":
-        allops = ["NewList", "NewObject", "NewListOf"] + LIST_MUT + ["SubList", "Clone"] + OBJ_MUT + ["Keys", "Values", "Pluck", "CloneO", "SetTF", "UnsetTF"]
+        allops = ["NewList", "NewObject", "NewListOf"] + LIST_MUT + ["SortAny", "SubList", "Clone"] + OBJ_MUT + ["Keys", "Values", "Pluck", "CloneO", "SetTF", "UnsetTF"]
         base = [
             dict(name="ego-r3-l1", maxrefs=3, nkeys=1, maxlen=1, scalars=[("int", 1)], ops=allops, tfkeys=1, tfidx=0, tflen=2, tfread=2,
                  conc=["tf"], derived=[1, 2], obs="getters,index,tf", depth=3, walks=4000, walklen=30),
